@@ -430,7 +430,7 @@ Qed.
 (* the interpreter: value AND the variables it stores *)
 Theorem execute_ast_seps a : forall vs, execute_ast bexec c' vs a = execute_ast bexec c vs a.
 Proof.
-  induction a as [| | | |l IHl op r IHr|op e IHe|name e IHe| |]; intros vs; try reflexivity.
+  induction a as [| | | |l IHl op r IHr|op e IHe|name ntoks e IHe| |]; intros vs; try reflexivity.
   - cbn [execute_ast]. rewrite IHl.
     destruct (execute_ast bexec c vs l) as [[[cl|m] vs1]|]; cbn [bind]; try reflexivity.
     rewrite IHr.
@@ -592,27 +592,29 @@ Theorem variable_read_any_config bexec (c c' : config F) vs name :
 Proof. split; reflexivity. Qed.
 
 (* an assignment stores the computed ast: the same one under both configurations *)
-Theorem assignment_stores_value (c c' : config F) vs name e v vs1 :
+Lemma assoc_insert_same_c08 {A} (k : str) (w0 : A) : forall l, assoc k (assoc_insert k w0 l) = Some w0.
+Proof.
+  induction l as [|[k' w] r IH]; cbn [assoc_insert assoc].
+  - rewrite str_eqb_refl. reflexivity.
+  - destruct (str_eqb k k') eqn:Ek.
+    + cbn [assoc]. rewrite str_eqb_refl. reflexivity.
+    + destruct (str_ltb k k'); cbn [assoc]; [rewrite str_eqb_refl; reflexivity|].
+      rewrite Ek. exact IH.
+Qed.
+
+Theorem assignment_stores_value (c c' : config F) vs name toks e v vs1 :
   same_but_seps c c' ->
-  execute_ast (basic_execute lx ck) c vs e = Ok (IOk v, vs1) -> assoc name vs1 <> None ->
+  execute_ast (basic_execute lx ck) c vs e = Ok (IOk v, vs1) ->
   exists vs2 vs2',
-    execute_ast (basic_execute lx ck) c vs (AAssignment name e) = Ok (IOk v, vs2) /\
-    execute_ast (basic_execute lx ck) c' vs (AAssignment name e) = Ok (IOk v, vs2') /\
+    execute_ast (basic_execute lx ck) c vs (AAssignment name toks e) = Ok (IOk v, vs2) /\
+    execute_ast (basic_execute lx ck) c' vs (AAssignment name toks e) = Ok (IOk v, vs2') /\
     vs2 = vs2' /\ option_map (@v_data F) (assoc name vs2) = Some v.
 Proof.
-  intros H E Hn.
-  destruct (assoc name vs1) as [vi|] eqn:Ea; [|congruence].
-  exists (assoc_insert name {| v_tokens := v_tokens vi; v_data := v |} vs1),
-         (assoc_insert name {| v_tokens := v_tokens vi; v_data := v |} vs1).
-  rewrite (execute_ast_real c c' vs (AAssignment name e) H).
-  cbn [execute_ast]. rewrite E. cbn [bind]. rewrite Ea.
-  repeat split; try reflexivity.
-  clear E Ea Hn. induction vs1 as [|[k w] r IH]; cbn [assoc_insert assoc].
-  - rewrite str_eqb_refl. reflexivity.
-  - destruct (str_eqb name k) eqn:Ek.
-    + cbn [assoc]. rewrite str_eqb_refl. reflexivity.
-    + destruct (str_ltb name k); cbn [assoc]; [rewrite str_eqb_refl; reflexivity|].
-      rewrite Ek. exact IH.
+  intros H E.
+  rewrite (execute_ast_real c c' vs (AAssignment name toks e) H).
+  cbn [execute_ast]. rewrite E. cbn [bind].
+  destruct (assoc name vs1) as [vi|] eqn:Ea; do 2 eexists; repeat split;
+    rewrite assoc_insert_same_c08; reflexivity.
 Qed.
 
 End Real.
